@@ -10,7 +10,7 @@ RULE = (
     "offered set, record index)"
 )
 BOUNDS = {
-    "quick": "N=0..5, all 2^N blank patterns, '+'-lists of <=3 items",
+    "quick": "N=0..5, all 2^N blank patterns, '+'-lists of <=3 items; plus N=12 with <=1 blank and scans over bounds {0,1,9,10,11,12,13} (two-digit line numbers)",
     "thorough": "N=0..7 all blank patterns, N=8..10 with <=2 blanks, '+'-lists of <=3 items (4 items for N<=5)",
 }
 ASSUMPTIONS = [
@@ -71,6 +71,19 @@ def cases(tier, seed):
         for blanks in _masks(n, maxblanks):
             for items in sc:
                 yield {"n": n, "blanks": blanks, "scan": items}
+    if tier == "quick":
+        # two-digit line numbers (the quick core stops at 7): files of 12 records with <=1 blank, scans built from {0,1,9,10,11,12,13}
+        vals = [0, 1, 9, 10, 11, 12, 13]
+        sc = [[["all"]]] + [[["from", a]] for a in vals] + [[["line", a]] for a in vals]
+        sc += [[["range", a, b]] for a in vals for b in vals if a != b]
+        sc += [[["line", a], ["line", b]] for a in vals for b in vals if a < b]
+        sc += [[["line", a], ["range", b, c]] for a in vals for b in vals for c in vals if a < b < c]
+        sc += [[["range", a, b], ["line", c]] for a in vals for b in vals for c in vals if a < b < c]
+        for blanks in _masks(12, 1):
+            if sum(blanks) and blanks.index(True) not in (0, 9, 10, 11):
+                continue
+            for items in sc:
+                yield {"n": 12, "blanks": blanks, "scan": items}
 
 
 def sample(case):
